@@ -933,8 +933,17 @@ def run(ctx):
         es = '%s:%s KmipSession._handle_message_loop' % (SESSION, c.lineno)
         okv = isinstance(kw[0], ast.Name)
         srcs = set()
+        def origins(node_, name_, depth_=0):
+            """the definitions the value of name_ at node_ goes back to, through plain copies (v = w)"""
+            out_ = []
+            for var_, val_, dn_ in lrd.reaching(node_, name_):
+                if isinstance(val_, ast.Name) and dn_ is not None and depth_ < 6:
+                    out_ += origins(dn_, val_.id, depth_ + 1)
+                else:
+                    out_.append((var_, val_, dn_))
+            return out_
         if okv:
-            for var, val, dn in lrd.reaching(n, kw[0].id):
+            for var, val, dn in origins(n, kw[0].id):
                 if isinstance(val, ast.Call) and call_name(val) == 'contents.protocol_version_to_kmip_version' and len(val.args) == 1:
                     a = val.args[0]
                     if dotted(a) == 'self._engine.default_protocol_version':
@@ -955,7 +964,7 @@ def run(ctx):
         # after a successful process_request the default must have been overwritten
         prn = call_nodes(lg, 'self._engine.process_request')
         for pn, pc in prn:
-            conv_nodes = [d[2] for d in lrd.reaching(n, kw[0].id) if isinstance(d[1], ast.Call) and d[2] is not None and lg.dominates(pn, d[2])]
+            conv_nodes = [d[2] for d in origins(n, kw[0].id) if isinstance(d[1], ast.Call) and d[2] is not None and lg.dominates(pn, d[2])]
             ctx.check(bool(conv_nodes) and all(x.stmt._parent is pc._parent._parent for x in conv_nodes), 'C16.R7',
                       'KmipSession._handle_message_loop|version-updated-with-result', es,
                       'the encoding version is updated in the same block as the engine call', 'the encoding version is not updated right after process_request')
